@@ -21,6 +21,7 @@ func init() {
 	zzsv.Register("ZZ_C01_Unary", ZZ_C01_Unary)
 	zzsv.Register("ZZ_C01_Nested", ZZ_C01_Nested)
 	zzsv.Register("ZZ_C01_LiteralPool", ZZ_C01_LiteralPool)
+	zzsv.Register("ZZ_C01_LiteralOperands", ZZ_C01_LiteralOperands)
 }
 
 var zzBinOps = []string{"+", "-", "*", "/", "%", "**", "<", "<=", ">", ">=", "==", "!=", "~=", "!~", "in", ".."}
@@ -395,4 +396,101 @@ func ZZ_C01_LiteralPool(sv *zzsv.T) {
 		want = zInt(l - 1)
 	}
 	sv.Assert("C01.literalpool", err == nil && zzSame(sv, out, want))
+}
+
+// ZZ_C01_LiteralOperands: the operators on integer *literals* (so through
+// the compile-time folding of constant sub-expressions): three literals,
+// symbolic in [0, 70000] at AST level, combined by two operators in the four
+// groupings `(x o y) o z`, `x o (y o z)`, `x o ((y o z) o x)` and
+// `(x o (y o z)) o x`, with and without the optimizer, against the operator
+// specification.
+func ZZ_C01_LiteralOperands(sv *zzsv.T) {
+	ops := []string{"+", "-", "*", "==", "!=", "<", "/"}
+	op1 := ops[sv.Choice("op1", len(ops))]
+	op2 := ops[sv.Choice("op2", len(ops))]
+	shape := sv.Choice("shape", 4)
+	var src string
+	switch shape {
+	case 0:
+		src = "return (7001 " + op1 + " 7002) " + op2 + " 7003;"
+	case 1:
+		src = "return 7001 " + op1 + " (7002 " + op2 + " 7003);"
+	case 2:
+		src = "return 7001 " + op1 + " ((7002 " + op2 + " 7003) " + op1 + " 7001);"
+	default:
+		src = "return (7001 " + op1 + " (7002 " + op2 + " 7003)) " + op2 + " 7001;"
+	}
+	sv.Note("script", src+"   (7001.. are symbolic literals)")
+	h1 := op1 == "*" || op1 == "/"
+	h2 := op2 == "*" || op2 == "/"
+	hard := h1 || h2
+	// products of products are beyond the solvers in 20 s: at most one
+	// multiplicative operator, and only in the two plain groupings
+	sv.Assume(!(h1 && h2))
+	sv.Assume(!hard || shape < 2)
+	// products and quotients of two symbolic 64-bit values are beyond the
+	// solvers in 20 s: one operand of a multiplicative operator is a concrete
+	// literal from a small set (the other stays symbolic)
+	concrete := -1
+	switch {
+	case !hard:
+	case shape == 0 && h1:
+		concrete = 1
+	case shape == 0 && h2:
+		concrete = 2
+	case shape == 1 && h1:
+		sv.Assume(op1 != "/") // a symbolic divisor
+		concrete = 0
+	default:
+		concrete = 2
+	}
+	var lits []int64
+	var x []zv
+	for i := 0; i < 3; i++ {
+		var l int64
+		if i == concrete {
+			l = []int64{0, 1, 3, 256, 65535}[sv.Choice("factor", 5)]
+		} else {
+			l = sv.Int64("L")
+			sv.Assume(l >= 0)
+			sv.Assume(l <= 70000)
+		}
+		lits = append(lits, l)
+		x = append(x, zInt(l))
+	}
+	prog, ok := zzParseWithLits(sv, src, lits)
+	sv.Assume(ok)
+	e := New(src)
+	sv.Assume(zzPrepareAST(e, prog, sv.Choice("noopt", 2) == 0) == nil)
+	out, err := e.Execute(nil)
+	zzDescribe(sv, "result", out, err)
+	// the specification, step by step
+	kind := kValue
+	var want zv
+	step := func(op string, l, r zv) zv {
+		if kind != kValue {
+			return zv{}
+		}
+		k, v := zzSpecBinary(sv, op, l, r)
+		kind = k
+		return v
+	}
+	switch shape {
+	case 0:
+		want = step(op2, step(op1, x[0], x[1]), x[2])
+	case 1:
+		want = step(op1, x[0], step(op2, x[1], x[2]))
+	case 2:
+		want = step(op1, x[0], step(op1, step(op2, x[1], x[2]), x[0]))
+	default:
+		want = step(op2, step(op1, x[0], step(op2, x[1], x[2])), x[0])
+	}
+	switch kind {
+	case kValue:
+		sv.Assert("C01.litops.value", err == nil && zzSame(sv, out, want))
+	case kError:
+		sv.Assert("C01.litops.error", err != nil)
+	default:
+		sv.Reach("C01.litops.unspec")
+	}
 }
